@@ -1,5 +1,13 @@
 package main
 
+import (
+	"go/types"
+	"sort"
+	"strings"
+
+	"golang.org/x/tools/go/ssa"
+)
+
 // Reasoning about the canonical search form exists(coll, pred) (see
 // Gate.Search).
 
@@ -94,4 +102,137 @@ func mapLookupOf(e *E) (m, k *E) {
 		return e.Args[0], e.Args[1]
 	}
 	return nil, nil
+}
+
+// StringAxioms returns the conjunction of the valid implications between the atoms in the support of
+// f that the rules rely on: the empty string is contained in, a prefix of and a suffix of every
+// string.  A rule that wants "f implies g up to these facts" checks Implies(And(f, axioms), g).
+func (u *U) StringAxioms(f Ref) Ref {
+	ats := u.AtomsOf(f)
+	isEmpty := func(at *E) *E {
+		if at.Op != "eq" {
+			return nil
+		}
+		for i := 0; i < 2; i++ {
+			x, k := at.Args[i], at.Args[1-i]
+			if sv, ok := k.StrVal(); ok && sv == "" {
+				return x
+			}
+			if x.Op == "len" && isIntConst(k, 0) {
+				return x.Args[0]
+			}
+		}
+		return nil
+	}
+	var ax Ref = True
+	for _, e := range ats {
+		y := isEmpty(e)
+		if y == nil {
+			continue
+		}
+		for _, c := range ats {
+			if c.Op == "call" && len(c.Args) == 2 && c.Args[1] == y &&
+				(c.Aux == "strings.Contains" || c.Aux == "strings.HasPrefix" || c.Aux == "strings.HasSuffix" || c.Aux == "bytes.Contains" || c.Aux == "bytes.HasPrefix" || c.Aux == "bytes.HasSuffix") {
+				ax = u.bdd.And(ax, u.bdd.Imp(u.Atom(e), u.Atom(c)))
+			}
+		}
+	}
+	return ax
+}
+
+// leafPredicate: a bool method small enough to be read as part of its caller's decision (no loops,
+// a handful of blocks).
+func leafPredicate(callee *ssa.Function) bool {
+	if callee.Signature.Recv() == nil || len(callee.Blocks) == 0 || len(callee.Blocks) > 6 || len(loopsOf(callee)) > 0 {
+		return false
+	}
+	res := callee.Signature.Results()
+	if res.Len() != 1 {
+		return false
+	}
+	b, ok := res.At(0).Type().Underlying().(*types.Basic)
+	return ok && b.Kind() == types.Bool
+}
+
+// FoldAxioms: strings.EqualFold(X[lo:hi], m) with a constant m whose first byte has no case variants
+// (not a letter, ASCII) implies X[lo] == m[0]: the comparison proceeds rune by rune and such a rune
+// folds only to itself.  Returned as the conjunction of the implications between atoms in the
+// support of f.
+func (u *U) FoldAxioms(f Ref) Ref {
+	ats := u.AtomsOf(f)
+	var ax Ref = True
+	for _, ef := range ats {
+		if ef.Op != "call" || (ef.Aux != "strings.EqualFold" && ef.Aux != "bytes.EqualFold") || len(ef.Args) != 2 {
+			continue
+		}
+		for i := 0; i < 2; i++ {
+			win, k := ef.Args[i], ef.Args[1-i]
+			m, ok := k.StrVal()
+			if !ok || m == "" || win.Op != "slice" || win.Args[1] == nil {
+				continue
+			}
+			b0 := m[0]
+			if b0 >= 0x80 || (b0 >= 'a' && b0 <= 'z') || (b0 >= 'A' && b0 <= 'Z') {
+				continue
+			}
+			for _, ie := range ats {
+				if ie.Op != "eq" {
+					continue
+				}
+				for j := 0; j < 2; j++ {
+					x, c := ie.Args[j], ie.Args[1-j]
+					cv, isC := c.IntVal()
+					if !isC || x.Op != "index" || x.Args[0] != win.Args[0] || x.Args[1] != win.Args[1] {
+						continue
+					}
+					if cv == int64(b0) {
+						ax = u.bdd.And(ax, u.bdd.Imp(u.Atom(ef), u.Atom(ie)))
+					} else {
+						ax = u.bdd.And(ax, u.bdd.Imp(u.Atom(ef), u.bdd.Not(u.Atom(ie))))
+					}
+				}
+			}
+		}
+	}
+	return ax
+}
+
+// theoryEmpty reports whether f has no model once the given axioms and linear integer arithmetic
+// over the atoms are taken into account: every cube of f & ax is refuted by Fourier-Motzkin.
+// On failure the surviving cube is described.
+func theoryEmpty(u *U, f, ax Ref) (bool, string) {
+	g := u.bdd.And(f, ax)
+	if g == False {
+		return true, ""
+	}
+	n := 0
+	surv := ""
+	u.bdd.Cubes(g, func(cube map[int]bool) {
+		n++
+		if surv != "" || n > 4096 {
+			if n > 4096 && surv == "" {
+				surv = "more than 4096 cases"
+			}
+			return
+		}
+		L := NewLin(u)
+		for v, pos := range cube {
+			L.assumeLiteral(u.atoms[v], pos)
+		}
+		L.resolveNeqs()
+		if L.entails(newLin(), newLin(), -1) {
+			return
+		}
+		var lits []string
+		for v, pos := range cube {
+			t := u.Show(u.atoms[v])
+			if !pos {
+				t = "!" + t
+			}
+			lits = append(lits, t)
+		}
+		sort.Strings(lits)
+		surv = strings.Join(lits, " & ")
+	})
+	return surv == "", surv
 }
